@@ -912,7 +912,8 @@ class Engine:
                     new_module = experiment.model.hooks.import_hooks_restart(hooks_dir, module_name)
                     RestartHook = new_module.Restart
                     self.log.log(19, 'Using custom restart hook to restart component on ResourceExhaustion')
-                except (ImportError, IOError):
+                except (ImportError, IOError, SystemExit):
+                    # VV: a hook module which calls sys.exit() while it is being imported cannot be imported either
                     self.log.log(19, f"Unable to import hook.restart {module_name} - will use fallback")
 
             if RestartHook is None:
